@@ -9,17 +9,17 @@ MIRI="$HERE/sim-miri"
 export CARGO_NET_OFFLINE=true
 mkdir -p "$HERE/replays"
 
-run_one() { # which rate threads rounds seed_lo seed_hi -> prints output, returns miri's exit code
-  (cd "$MIRI" && MIRIFLAGS="-Zmiri-many-seeds=$5..$6 -Zmiri-preemption-rate=$2" \
-     cargo +nightly miri run --offline -- "$3" "$4" 0 "$1" 2>&1)
+run_one() { # which rate threads rounds seed mode -> prints output, returns miri's exit code
+  (cd "$MIRI" && MIRIFLAGS="-Zmiri-seed=$5 -Zmiri-preemption-rate=$2" \
+     cargo +nightly miri run --offline -- "$3" "$4" 0 "$1" "$6" 2>&1)
 }
 
 if [ "${1:-}" = "replay" ]; then
   f="$2"
-  read -r which rate threads rounds seed < <(python3 -c "
+  read -r which rate threads rounds seed mode < <(python3 -c "
 import json,sys; d=json.load(open(sys.argv[1])); c=d['case']
-print(c['which'],c['rate'],c['threads'],c['rounds'],c['miri_seed'])" "$f")
-  out=$(run_one "$which" "$rate" "$threads" "$rounds" "$seed" "$((seed+1))"); rc=$?
+print(c['which'],c['rate'],c['threads'],c['rounds'],c['miri_seed'],c.get('mode','full'))" "$f")
+  out=$(run_one "$which" "$rate" "$threads" "$rounds" "$seed" "$mode"); rc=$?
   echo "$out" | grep -E "MIRI-MISMATCH|error: Undefined|error: .*[Rr]ace|panicked" | head -5
   if [ $rc -ne 0 ]; then echo "REPLAY-RESULT violation-reproduced oracle=D1-miri"; exit 1; fi
   echo "REPLAY-RESULT no-violation property=C14"; exit 0
@@ -29,13 +29,14 @@ tier="${1:-quick}"
 gseed="${VERIF_SEED:-20260926}"
 case "$gseed" in ''|*[!0-9]*) gseed=20260926;; esac
 base=$(( gseed % 100000 ))
-rounds=1
-# which:rate:seeds:threads   (which 0 de, 1 nl, 2 it: the shared splitter kept busy by 6 callers;
-#                             3: en/fr/es/pt, every entry point, 3 callers)
+# which:rate:seeds:threads:rounds:mode
+#   which 0 de, 1 nl, 2 it: callers share that language's interpreter (and its WordSplitter);
+#         mode dense = only short single-word calls, which keeps the shared splitter busiest
+#   which 3: en/fr/es/pt, every entry point (text, stream, lazy, replace)
 if [ "$tier" = "thorough" ]; then
-  configs="0:0.9:48:6 1:0.9:48:6 2:0.9:48:6 3:0.9:32:3 0:0.3:24:6 1:0.3:24:6 2:0.3:24:6 3:0.3:16:3"
+  configs="0:0.9:48:8:3:dense 1:0.9:48:8:3:dense 2:0.9:48:8:3:dense 0:0.9:16:6:1:full 1:0.9:16:6:1:full 2:0.9:16:6:1:full 3:0.9:32:3:1:full 0:0.3:16:6:1:full 1:0.3:16:6:1:full 2:0.3:16:6:1:full 3:0.3:16:3:1:full"
 else
-  configs="0:0.9:4:6 1:0.9:4:6 2:0.9:4:6 3:0.9:4:3"
+  configs="0:0.9:4:8:3:dense 1:0.9:4:8:3:dense 2:0.9:4:8:3:dense 3:0.9:4:3:1:full"
 fi
 nseeds="per-config"
 start=$(date +%s)
@@ -47,27 +48,26 @@ fi
 # repeatable execution
 jobs=""
 for cfg in $configs; do
-  IFS=: read -r which rate n th <<<"$cfg"
-  for s in $(seq "$base" "$((base+n-1))"); do jobs="$jobs$which $rate $s $th\n"; done
+  IFS=: read -r which rate n th ro mode <<<"$cfg"
+  for s in $(seq "$base" "$((base+n-1))"); do jobs="$jobs$which $rate $s $th $ro $mode\n"; done
 done
 resdir=$(mktemp -d "$HERE/replays/.miri-XXXXXX")
 printf "$jobs" | xargs -P 16 -L 1 sh -c '
-  cd "'"$MIRI"'" && MIRIFLAGS="-Zmiri-seed=$2 -Zmiri-preemption-rate=$1" cargo +nightly miri run --offline -- $3 '"$rounds"' 0 "$0" >"'"$resdir"'/$0-$1-$2.out" 2>&1
-  echo $? >"'"$resdir"'/$0-$1-$2.rc"' 
-total=0; viol=0; replay=""; detail=""; threads=6
+  cd "'"$MIRI"'" && MIRIFLAGS="-Zmiri-seed=$2 -Zmiri-preemption-rate=$1" cargo +nightly miri run --offline -- $3 $4 0 "$0" $5 >"'"$resdir"'/$0-$1-$2-$3-$4-$5.out" 2>&1
+  echo $? >"'"$resdir"'/$0-$1-$2-$3-$4-$5.rc"' 
+total=0; viol=0; replay=""; detail=""; threads=0; rounds=0
 for rcf in $(ls "$resdir"/*.rc | sort -V); do
   rc=$(cat "$rcf"); outf="${rcf%.rc}.out"
   if [ "$rc" = "0" ] && grep -q "MIRI-OK" "$outf"; then total=$((total+1)); continue; fi
   if [ $viol -eq 0 ]; then
-    b=$(basename "${rcf%.rc}"); IFS=- read -r which rate fs <<<"$b"
-    threads=6; [ "$which" = "3" ] && threads=3
+    b=$(basename "${rcf%.rc}"); IFS=- read -r which rate fs threads rounds mode <<<"$b"
     detail=$(grep -E "MIRI-MISMATCH|error: Undefined|Data race|panicked" "$outf" | head -2 | tr '\n' ' ' | cut -c1-400)
-    replay="$HERE/replays/C14-miri-$which-$rate-$fs.json"
-    python3 - "$replay" "$which" "$rate" "$threads" "$rounds" "$fs" "$detail" <<'PY'
+    replay="$HERE/replays/C14-miri-$which-$rate-$fs-$mode.json"
+    python3 - "$replay" "$which" "$rate" "$threads" "$rounds" "$fs" "$detail" "$mode" <<'PY'
 import json,sys
-p,which,rate,threads,rounds,seed,detail=sys.argv[1:8]
+p,which,rate,threads,rounds,seed,detail,mode=sys.argv[1:9]
 json.dump({"property":"C14","layer":"miri","oracle":"D1-miri","detail":detail,
-  "case":{"which":int(which),"rate":rate,"threads":int(threads),"rounds":int(rounds),"miri_seed":int(seed)}},open(p,"w"),indent=1)
+  "case":{"which":int(which),"rate":rate,"threads":int(threads),"rounds":int(rounds),"miri_seed":int(seed),"mode":mode}},open(p,"w"),indent=1)
 PY
     if "$0" replay "$replay" | grep -q "violation-reproduced"; then viol=1; else
       echo "HARNESS-ERROR: Miri failure ($b) did not reproduce" >&2; rm -rf "$resdir"; exit 2
@@ -82,8 +82,8 @@ p,tier,total,viol,wall,configs,nseeds,threads,rounds,base=sys.argv[1:11]
 try: d=json.load(open(p))
 except Exception: sys.exit(0)
 d.setdefault("coverage",{}).setdefault("extra",{})["miri_layer"]={
-  "seed_runs_ok":int(total),"configs_which_rate_seeds_threads":configs.split(),"first_miri_seed":int(base),
-  "threads":int(threads),"rounds":int(rounds),"wall_s":int(wall),
+  "seed_runs_ok":int(total),"configs_which_rate_seeds_threads_rounds_mode":configs.split(),"first_miri_seed":int(base),
+  "wall_s":int(wall),
   "what":"real std::thread callers sharing one set of interpreters, Miri scheduler deterministic per seed, basic-block preemption, data-race and UB detection; shipped code only (hooks off)"}
 d["violations"]=int(d.get("violations",0))+int(viol)
 d["wall_s"]=float(d.get("wall_s",0))+float(wall)
@@ -94,5 +94,5 @@ if [ $viol -ne 0 ]; then
   echo "VIOLATION property=C14 replay=$replay"
   exit 1
 fi
-echo "miri layer: $total seed-runs ok (which:rate:seeds:threads = $configs) in ${wall}s"
+echo "miri layer: $total seed-runs ok (which:rate:seeds:threads:rounds:mode = $configs) in ${wall}s"
 exit 0
